@@ -143,6 +143,10 @@ Theorem batch_read_per_object_status : forall get maxsz ds rs,
 Proof. exact batch_read_per_entry. Qed.
 Print Assumptions batch_read_per_object_status.
 
+(** One server RPC: digests of ONE instance name and digest function.  Sets
+    over several instance names / digest functions through the client (one
+    RPC per partition, union): [find_missing_exact_multi] and
+    [client_server_find_missing_multi] in Props/C14F.v. *)
 Theorem find_missing_exact : forall missing ds ms,
   find_missing missing 0 ds = (0, ms) ->
   forall d, In d ms <-> In d ds /\ missing d = true.
